@@ -113,34 +113,35 @@ def parse_config_file(path: str, kwargs: dict):
     config = configparser.ConfigParser()
     config.read(path)
 
+    # configuration keys are the long option names; map them onto the
+    # keyword arguments the command line flags are stored under
+    names = {
+        "tracker": "announce",
+        "http-seed": "httpseeds",
+        "http-seeds": "httpseeds",
+        "web-seed": "url_list",
+        "web-seeds": "url_list",
+        "piece-length": "piece_length",
+        "meta-version": "meta_version",
+        "out": "outfile",
+        "prog": "progress",
+    }
     for key, val in config["config"].items():
-        if key.lower() in ["announce", "http-seed", "web-seed", "tracker"]:
-            val = [i for i in val.split("\n") if i]
+        name = names.get(key.lower(), key.lower())
 
-            if key.lower() == "http-seed":
-                kwargs["httpseeds"] = val
+        if name in ["announce", "httpseeds", "url_list"]:
+            kwargs[name] = [i for i in val.split("\n") if i]
 
-            elif key.lower() == "web-seed":
-                kwargs.setdefault("url-list", [])
-                kwargs["url-list"] = val
-
+        elif name in ["private", "align", "magnet", "cwd"]:
+            if val.lower() == "true":
+                kwargs[name] = True
+            elif val.lower() == "false":
+                kwargs[name] = False
             else:
-                kwargs[key.lower()] = val
-
-        elif key.lower() == "piece-length":
-            kwargs["piece_length"] = val
-
-        elif key.lower() == "meta-version":
-            kwargs["meta_version"] = val
-
-        elif val.lower() == "true":
-            kwargs[key.lower()] = True
-
-        elif val.lower() == "false":
-            kwargs[key.lower()] = False
+                kwargs[name] = val
 
         else:
-            kwargs[key.lower()] = val
+            kwargs[name] = val
 
 
 def create(args: Namespace) -> Namespace:
